@@ -36,16 +36,20 @@ EvPeer ==
               !.dirty[c] = IF E.stage = "rset" /\ ~err THEN FALSE
                            ELSE IF E.stage \in {"mail", "data", "eod"} /\ err THEN TRUE
                            ELSE IF E.stage = "mail" /\ ~err THEN FALSE ELSE @]
-\* what the downstream answered to the transaction that carried request r (the peer reads r out of the MAIL address)
-PeerOf(r) == {k \in 1..(l - 1) : Tr[k].t = "peer" /\ Tr[k].m = r /\ Tr[k].stage \in {"mail", "rcpt", "data", "eod"}}
+\* what the downstream answered to the transaction that carried request r (the peer reads r out of the MAIL address);
+\* over the whole trace: on real sockets (HTTP) the peer may log its answer after the relay has already given up
+PeerOf(r) == {k \in 1..Len(Tr) : Tr[k].t = "peer" /\ Tr[k].m = r /\ Tr[k].stage \in {"mail", "rcpt", "data", "eod"}}
 NRcpt(r) == LET ks == {k \in 1..(l - 1) : Tr[k].t = "call" /\ Tr[k].req = r} IN IF ks = {} THEN 0 ELSE Tr[CHOOSE k \in ks : TRUE].nrcpt
 Good(k) == Tr[k].act = "code" /\ Cls(Tr[k].code) \in {2, 3}
 Count(r, st) == Cardinality({k \in PeerOf(r) : Tr[k].stage = st})
-AllFine(r) == /\ \A k \in PeerOf(r) : Good(k)
+HttpOf(r) == {k \in 1..Len(Tr) : Tr[k].t = "peer" /\ Tr[k].m = r /\ Tr[k].stage = "http"}
+AllFine(r) == IF T.cfg.kind = "http" THEN Cardinality(HttpOf(r)) = 1 /\ \A k \in HttpOf(r) : Good(k) ELSE
+              /\ \A k \in PeerOf(r) : Good(k)
               /\ \A j, k \in PeerOf(r) : Tr[j].conn = Tr[k].conn
               /\ Count(r, "mail") = 1 /\ Count(r, "rcpt") = NRcpt(r) /\ Count(r, "data") = 1
               /\ Count(r, "eod") = IF T.cfg.lmtp THEN NRcpt(r) ELSE 1
-AcceptedAt(r, i) == /\ \E k \in PeerOf(r) : Tr[k].stage = "rcpt" /\ Tr[k].i = i /\ Good(k)
+AcceptedAt(r, i) == IF T.cfg.kind = "http" THEN \E k \in HttpOf(r) : Good(k) ELSE
+                    /\ \E k \in PeerOf(r) : Tr[k].stage = "rcpt" /\ Tr[k].i = i /\ Good(k)
                     /\ \E k \in PeerOf(r) : Tr[k].stage = "eod" /\ Tr[k].i = (IF T.cfg.lmtp THEN i ELSE 0) /\ Good(k)
 EvCall == /\ E.t = "call" /\ P' = [P EXCEPT !.called = @ \cup {E.req}] /\ bad' = bad
 EvRet == /\ E.t = "ret"
